@@ -105,3 +105,19 @@ more("C13", "(sixth round) Signbit/Copysign evaluated on the six sign classes of
 more("C17", "(sixth round) files are sorted by their physical name.")
 more("C19", "(sixth round) no constant shift in the codecs reaches the width of its operand type; header reader/writer accept library and hand-coded big-endian forms.")
 more("C20", "(sixth round) prepareFile never writes through a slice that aliases its argument.")
+
+# seventh round
+more("C01", "(seventh round) the channel value-flow rules of C03, the deferred-call order of $callDeferred and the literal-analysis lookup are evaluated for C01 as well.")
+more("C02", "(seventh round) Blocking/Flattened sets only grow; $callDeferred examines a suspended deferred call before a recovered panic.")
+more("C04", "(seventh round) function-literal analyses are looked up with the enclosing instance's type arguments and returned only on equality.")
+more("C08", "(seventh round) arguments of deferred builtins are parameters of the proxy lambda.")
+more("C10", "(seventh round) an exported go:linkname reference is exported where it is bound; blocking marks of body-less functions are never cleared.")
+more("C11", "(seventh round) the cycle cache of $internalize is keyed by type, then value.")
+more("C12", "(seventh round) an all-blank specification is removed only if one of its names was overridden.")
+more("C13", "(seventh round) nosync.Pool.Put drops nil like sync.Pool.Put.")
+more("C14", "(seventh round) the minifier's string-literal scan (C16.space) is evaluated for C14.")
+more("C15", "(seventh round) $idKey assigns an id exactly once.")
+more("C16", "(seventh round) KeepNames accompanies identifier minification.")
+more("C17", "(seventh round) no sort orders files by token.Pos.")
+more("C18", "(seventh round) no build context carries tool tags.")
+more("C20", "(seventh round) LoadPackages only raises SrcModTime.")
